@@ -505,8 +505,10 @@ func c11Drive(args []string) int {
 		for k := 0; k < len(recs); k++ {
 			rec, e := sr.Read()
 			if e != nil {
-				fmt.Println("error: generated document does not stream:", text, e)
-				return 3
+				// a well-formed document whose k-th record is not delivered: there is no tree to query, the reference has one
+				events = append(events, M{"ev": "equal", "tr": len(events) + 1, "x": []string{"NO-RECORD " + e.Error()}, "y": []string{"record"}, "xml": text, "expr": "/root/*[" + fmt.Sprint(k+1) + "]", "ctx": "."})
+				sum.Traces++
+				break
 			}
 			idrDoc := rec
 			for idrDoc.Parent != nil {
